@@ -1,10 +1,208 @@
-(* C02 -- placeholder while the harness is brought up; replaced below. *)
-From Coq Require Import List String Bool.
-From LK Require Import Gen.C02_shape Model.C02_runner.
-Import ListNotations.
+(* C02 -- A pipeline run is the functional evaluation of its DAG, each needed node once.
+   Property theorems only; each is closed by `exact <lemma>` and followed by Print Assumptions.
 
+   Model: Model/C02_runner.v -- [run]/[run_all]/[pipeline_run] render PipelineRunner.run,
+   _run_node, _inject_input, _run_component, DeferredRun.get, Pipeline.run_all/run line by line
+   (memo table = status map + state map, `required` propagation, bail-out of optional consumers,
+   run-time type checks, component bodies as interaction trees that may force lazy inputs);
+   [den] is the specification: the same graph evaluated as a pure dataflow program without any memo
+   table, returning the value (or "no value" / error) and the list of component bodies executed.
+   Acyclic wiring = a rank function decreasing along every connection ([ranked]); [F] bounds the
+   model's recursion and is immaterial (run_fuel_irrelevant).  All theorems quantify over ALL graphs,
+   inputs, request lists and component bodies.
+
+   Property text -> theorem:
+   * "running the pipeline returns exactly the values obtained by evaluating the graph as a pure
+     dataflow program ... a missing required input or wrongly-typed value is reported as an error"
+                                  -> run_correct (+ den_is_dataflow, value_independent_of_consumer,
+                                     run_fuel_irrelevant)
+   * "explicit connections first and builder-level default connections otherwise"
+                                  -> default_connections_second, built_pipeline_is_acyclic
+   * "independent of the order in which nodes were declared or requested"
+                                  -> declaration_order_irrelevant
+   * "each component executes at most once"            -> at_most_once
+   * "and only if a requested node depends on it, inputs declared lazy and fallback alternatives
+     execute only when actually consulted"             -> only_if_needed, fallback_only_when_consulted
+   * "Cyclic wirings are rejected"                     -> cycle_rejected
+   * "an exception raised inside a component reaches the caller unchanged"
+                                  -> exception_transparent
+   * "and leaves the pipeline fully usable for later runs"
+                                  -> rerun_after_failure (uses the shape facts REGENERATED from the
+                                     source on every run: Gen/C02_shape.v) *)
+From Coq Require Import ZArith List Bool Arith Lia Permutation.
+From LK Require Import Model.C02_runner Gen.C02_shape
+  Proofs.C02_basic Proofs.C02_den Proofs.C02_correct Proofs.C02_cycle Proofs.C02_order Proofs.C02_shapeok.
+Import ListNotations.
+Open Scope list_scope.
+
+(* The runner with its memo table returns what the memo-free dataflow evaluation returns: the
+   values of the requested nodes, or the error that evaluation meets first in request order. *)
+Theorem run_correct : forall (g : graph) (inputs : list (name * val)) (rank : name -> nat),
+  ranked g rank -> forall F, (forall n, rank n < F) ->
+  forall ns, pipeline_run g inputs F ns = den_outcome g inputs F ns.
+Proof. exact run_correct_l. Qed.
+Print Assumptions run_correct.
+
+(* [den] satisfies the dataflow equations (no fuel): a literal is its value; an input is the supplied
+   value (type-checked), None if optional and absent, missing otherwise; a component is its body
+   applied to the values of the nodes wired to its parameters. *)
+Theorem den_is_dataflow : forall g inputs rank, ranked g rank -> forall F, (forall n, rank n < F) ->
+  forall n r, den g inputs F n r = den_step g inputs (den g inputs F) n r.
+Proof. exact D_fix. Qed.
+Print Assumptions den_is_dataflow.
+
+(* What a node evaluates to does not depend on whether its consumer requires it: same value and same
+   executed components; "no value" for an optional consumer is exactly the missing-input error for a
+   requiring one; an error stays an error. *)
+Theorem value_independent_of_consumer : forall g inputs rank, ranked g rank -> forall F, (forall n, rank n < F) ->
+  forall n, rel2 (den g inputs F n false) (den g inputs F n true).
+Proof. exact D_rel2. Qed.
+Print Assumptions value_independent_of_consumer.
+
+Theorem run_fuel_irrelevant : forall g inputs rank F1 F2 ns,
+  ranked g rank -> (forall n, rank n < F1) -> (forall n, rank n < F2) ->
+  pipeline_run g inputs F1 ns = pipeline_run g inputs F2 ns.
+Proof. exact run_fuel_irrelevant_l. Qed.
+Print Assumptions run_fuel_irrelevant.
+
+(* Permuting the declarations and the request changes neither the value of any node nor whether the
+   run fails (which of several independent errors is reported follows the request order). *)
+Theorem declaration_order_irrelevant : forall g g' inputs rank F ns ns',
+  NoDup (map fst g) -> Permutation g g' -> Permutation ns ns' -> ns <> [] ->
+  ranked g rank -> (forall n, rank n < F) ->
+  (forall n, node_value g inputs F n = node_value g' inputs F n) /\
+  (forall vs, pipeline_run g inputs F ns = Values vs -> vs = map (node_value g inputs F) ns) /\
+  (forall vs, pipeline_run g' inputs F ns' = Values vs -> vs = map (node_value g inputs F) ns') /\
+  ((exists vs, pipeline_run g inputs F ns = Values vs) <-> (exists vs, pipeline_run g' inputs F ns' = Values vs)).
+Proof. exact order_irrelevant_l. Qed.
+Print Assumptions declaration_order_irrelevant.
+
+(* Any graph (cyclic or not), any fuel, failing or not: no component body is called twice. *)
+Theorem at_most_once : forall g inputs fuel ns s e,
+  run_all g inputs fuel ns = (s, e) -> NoDup (log s).
+Proof. exact at_most_once_l. Qed.
+Print Assumptions at_most_once.
+
+(* A component runs only if a requested node reaches it through the wiring (any graph); on an acyclic
+   wiring only if the memo-free evaluation of a requested node executes it -- in particular the source
+   of a lazy parameter only if the body forced it -- and, when the run succeeds, exactly then. *)
+Theorem only_if_needed :
+  (forall g inputs fuel ns s e c, run_all g inputs fuel ns = (s, e) -> In c (log s) ->
+     exists root, In root (requests g ns) /\ reach g root c) /\
+  (forall g inputs rank, ranked g rank -> forall F, (forall n, rank n < F) ->
+     (forall ns s e c, run_all g inputs F ns = (s, e) -> In c (log s) ->
+        exists root, In root (requests g ns) /\ needs g inputs F root c) /\
+     (forall ns s root c, run_all g inputs F ns = (s, None) ->
+        In root (requests g ns) -> needs g inputs F root c -> In c (log s))).
+Proof.
+  split; [exact only_reachable_l|].
+  intros g inputs rank Hr F HF. split; [exact (only_if_needed_l g inputs rank Hr F HF)|exact (needed_executed_l g inputs rank Hr F HF)].
+Qed.
+Print Assumptions only_if_needed.
+
+(* fallback_on_none / use_first_of: when the primary has a value the node returns it and executes
+   nothing beyond the primary's evaluation; the alternative is evaluated only when the primary gave
+   no value, and then the node returns the alternative's value. *)
+Theorem fallback_only_when_consulted : forall g inputs d f a b r,
+  lookup f g = Some (Comp (fallback_params a b) fallback_body) ->
+  (forall v, fst (d a false) = DVal (Some v) ->
+     den_step g inputs d f r = (DVal (Some v), snd (d a false) ++ [f])) /\
+  (to_opt (fst (d a false)) = None -> (forall e, fst (d a false) <> DErr e) ->
+     snd (den_step g inputs d f r) = (snd (d a false) ++ [f]) ++ snd (d b false) /\
+     ((forall e, fst (d b false) <> DErr e) -> fst (den_step g inputs d f r) = DVal (to_opt (fst (d b false))))).
+Proof. exact fallback_den_l. Qed.
+Print Assumptions fallback_only_when_consulted.
+
+(* build_config wires a parameter to its explicit connection, else to the default connection of its
+   name; a pipeline that build() returned is acyclic (so run_correct applies, with the fuel the
+   correspondence runs use). *)
+Theorem default_connections_second : forall defaults p,
+  p_src (resolve_param defaults p) =
+    match bp_conn p with Some s => Some s | None => lookup (bp_name p) defaults end /\
+  p_lazy (resolve_param defaults p) = bp_lazy p /\ p_typed (resolve_param defaults p) = bp_typed p /\
+  p_nullable (resolve_param defaults p) = bp_nullable p.
+Proof. exact resolve_param_l. Qed.
+Print Assumptions default_connections_second.
+
+Theorem built_pipeline_is_acyclic : forall b g, build b = Some g ->
+  g = resolve b /\ exists rank, ranked g rank /\ forall n, rank n < 2 + length g.
+Proof. exact build_ranked_l. Qed.
+Print Assumptions built_pipeline_is_acyclic.
+
+(* The cycle check accepts exactly the wirings (explicit and default connections together) that have
+   a rank, and rejects every wiring with a closed path; the runner raises on re-entering a node that
+   is in progress. *)
+Theorem cycle_rejected :
+  (forall g,
+     (acyclic_b g = true -> exists rank, ranked g rank /\ forall n, rank n < 2 + length g) /\
+     (NoDup (map fst g) -> (exists rank, ranked g rank) -> acyclic_b g = true) /\
+     (forall n, path g n n -> acyclic_b g = false)) /\
+  (forall g inputs fuel s n r, stat s n = InProgress -> run g inputs (S fuel) s n r = (s, Err ECycle)).
+Proof. split; [exact cycle_rejected_l|exact reenter_raises_l]. Qed.
+Print Assumptions cycle_rejected.
+
+(* If the run ends with exception e, every node that failed during the run failed with that very e,
+   and e was created at one place: a diagnostic of the runner or a Raise in some component's body.
+   If the run succeeds no node failed.  (Any graph, any fuel.) *)
+Theorem exception_transparent : forall g inputs fuel ns s,
+  (forall e, run_all g inputs fuel ns = (s, Some e) ->
+     (forall m e', stat s m = Failed e' -> e' = e) /\ origin g e) /\
+  (run_all g inputs fuel ns = (s, None) -> forall m e', stat s m <> Failed e').
+Proof. exact exception_transparent_l. Qed.
+Print Assumptions exception_transparent.
+
+(* Runs made one after another on the same pipeline object -- each starting from what the source says
+   a run starts from -- return what each would return on its own, whatever failed before. *)
+Theorem rerun_after_failure : forall g fuel reqs,
+  run_seq g fuel init reqs = map (fun r => pipeline_run g (fst r) fuel (snd r)) reqs.
+Proof. exact rerun_l. Qed.
+Print Assumptions rerun_after_failure.
+
+(* the shape of the source the model relies on (regenerated on every run) *)
 Theorem shape_as_modelled :
   runner_fresh_per_run = true /\ init_all_pending = true /\ init_state_empty = true /\
-  pipeline_methods_assigning_self = [] /\ handler_reraises_same_exception = true.
-Proof. repeat split; reflexivity. Qed.
+  pipeline_methods_assigning_self = [] /\ handler_reraises_same_exception = true /\
+  status_dispatch = expected_dispatch /\ status_writes = expected_writes /\
+  pipeline_members_used = expected_members.
+Proof. exact shape_l. Qed.
 Print Assumptions shape_as_modelled.
+
+(* non-vacuity: the graph of defect F-C02-1 (optional input x absent; inc needs x; c1 and c2 take inc
+   optionally; both needs c1 and c2), built through the builder with a default connection, satisfies
+   the hypotheses, and the run returns the dataflow value with c1, both, c2 executed once each and inc
+   skipped (the second input of `both` is lazy). *)
+Definition ex_body1 (k : Z) : list (option val) -> prog :=
+  body_of (BIfNone (AArg 0) (BRet (BLin (-k) [])) (BRet (BLin (100 * k) [(1%Z, AArg 0)]))).
+Definition ex_builder : builder :=
+  {| b_nodes :=
+       [ (0, BInput true true);
+         (1, BComp [ {| bp_name := 0; bp_conn := Some 0; bp_lazy := false; bp_typed := true; bp_nullable := false |} ]
+                   (body_of (BRet (BLin 1 [(1%Z, AArg 0)]))));
+         (2, BComp [ {| bp_name := 1; bp_conn := None; bp_lazy := false; bp_typed := true; bp_nullable := true |} ] (ex_body1 1));
+         (3, BComp [ {| bp_name := 1; bp_conn := None; bp_lazy := false; bp_typed := true; bp_nullable := true |} ] (ex_body1 2));
+         (4, BComp [ {| bp_name := 2; bp_conn := Some 2; bp_lazy := false; bp_typed := true; bp_nullable := false |};
+                     {| bp_name := 3; bp_conn := Some 3; bp_lazy := true; bp_typed := true; bp_nullable := false |} ]
+                   (body_of (BForce 1 (BRet (BLin 0 [(1000%Z, AArg 0); (1%Z, AForced 1)]))))) ];
+     b_defaults := [(1, 1)];
+     b_aliases := [(100, 4)] |}.
+
+Example c02_nonvacuous :
+  let g := resolve ex_builder in
+  let F := 2 + length g in
+  build ex_builder = Some g /\
+  ranked g (fun n => Nat.min n 5) /\ (forall n : nat, Nat.min n 5 < F) /\
+  (* requested through its alias; inc (node 1) is skipped; c1 runs, then the body of `both` starts and
+     forces its lazy input c2: each once *)
+  snd (run_all g [] F [resolve_alias (b_aliases ex_builder) 100]) = None /\
+  rev (log (fst (run_all g [] F [4]))) = [2; 4; 3] /\
+  stat (fst (run_all g [] F [4])) 1 = Finished /\ vals (fst (run_all g [] F [4])) 1 = None /\
+  pipeline_run g [] F [4] = Values [Some (VInt (-1002))] /\
+  pipeline_run g [(0, VInt 5)] F [4; 1] = Values [Some (VInt 106206); Some (VInt 6)].
+Proof.
+  cbv zeta. split.
+  { unfold build. assert (E : acyclic_b (resolve ex_builder) = true) by (vm_compute; reflexivity).
+    rewrite E. reflexivity. }
+  split; [apply ranked_b_sound; vm_compute; reflexivity|].
+  split; [intros n; change (length (resolve ex_builder)) with 5; lia|].
+  repeat split; vm_compute; reflexivity.
+Qed.
